@@ -61,7 +61,7 @@ def run(rec, cfg):
             for k in ("paren", "neg", "sgn", "pow"):
                 one(WT.nested(rng, d, k))
                 one(WT.nested(rng, d, k)[: -max(1, d // 2)])
-    n = cfg.scale(4000, 100000)
+    n = cfg.scale(12000, 150000)
     for i in range(n):
         if cfg.out_of_time():
             rec.truncated = True
@@ -84,7 +84,7 @@ def run(rec, cfg):
         if rng.random() < 0.002:
             rec.sample({"text": s[:100]})
     # histories with failures interleaved (sticky state)
-    for h in range(cfg.scale(25, 500)):
+    for h in range(cfg.scale(80, 800)):
         if cfg.out_of_time():
             rec.truncated = True
             break
